@@ -17,6 +17,7 @@ import (
 
 	"github.com/apernet/quic-go"
 
+	"github.com/apernet/hysteria/core/v2/internal/frag"
 	"github.com/apernet/hysteria/core/v2/internal/protocol"
 	kit "github.com/apernet/hysteria/core/v2/internal/verifkit"
 )
@@ -28,6 +29,7 @@ type c05IO struct {
 	mu    sync.Mutex
 	limit int
 	out   []protocol.UDPMessage // frames of the Send in progress (deep copies)
+	failAt int // the failAt-th datagram of the Send in progress is refused by the transport (0: none)
 	race  bool
 	raceN, raceBad int
 }
@@ -76,6 +78,9 @@ func (f *c05IO) SendMessage(buf []byte, m *protocol.UDPMessage) error {
 	defer f.mu.Unlock()
 	if f.limit > 0 && m.Size() > f.limit {
 		return &quic.DatagramTooLargeError{MaxDatagramPayloadSize: int64(f.limit)}
+	}
+	if f.failAt > 0 && len(f.out)+1 == f.failAt {
+		return errors.New("transport refused the datagram")
 	}
 	n := m.Serialize(buf)
 	if n < 0 {
@@ -272,6 +277,17 @@ func c05eRun(t *testing.T, tr *kit.Trace, seed int64, src string) {
 			}
 		}
 		synctest.Wait()
+		// one session sends several messages in a row, the transport refusing a datagram in the middle of some of them;
+		// everything that did reach the wire goes, in wire order, through a reassembler of the far side's kind: whatever
+		// comes out must be, byte for byte, one of the messages the application sent (or nothing)
+		if !lost && r.Intn(2) == 0 {
+			for _, s := range ss {
+				if s.open {
+					c05eSendSeq(tr, fio, s.c, s.id, r.Int63())
+					break
+				}
+			}
+		}
 		// several sessions sending concurrently (Send is per session: each has its own state, nothing may be shared)
 		if !lost && len(ss) >= 2 && r.Intn(2) == 0 {
 			fio.mu.Lock()
@@ -324,6 +340,72 @@ func c05eRun(t *testing.T, tr *kit.Trace, seed int64, src string) {
 		}
 		synctest.Wait()
 	})
+}
+
+func c05eSendSeq(tr *kit.Trace, fio *c05IO, c *udpConn, id int, seed int64) {
+	attempt := func() kit.E {
+		r := kit.Rand(seed)
+		d := &frag.Defragger{}
+		nm := 2 + r.Intn(4)
+		limit := []int{100, 300, 1200}[r.Intn(3)]
+		addr := string(bytes.Repeat([]byte{'y'}, 1+r.Intn(20)))
+		base := limit*2 + r.Intn(limit*3) // same size class: consecutive messages split into the same number of fragments
+		var sent [][]byte
+		emitted, bad, failed, frames := 0, 0, 0, 0
+		for k := 0; k < nm; k++ {
+			dlen := base
+			if r.Intn(4) == 0 {
+				dlen = 1 + r.Intn(limit*5)
+			}
+			data := make([]byte, dlen)
+			for i := range data {
+				data[i] = byte(i*11 + k*37 + int(seed))
+			}
+			data[0] = byte(k) // no two messages of the sequence are equal
+			fio.mu.Lock()
+			fio.limit, fio.out, fio.failAt = limit, nil, 0
+			if k < nm-1 && r.Intn(3) != 0 {
+				fio.failAt = 2 + r.Intn(3)
+			}
+			fio.mu.Unlock()
+			var err error
+			if p := kit.Catch(func() { err = c.Send(data, addr) }); p != "" {
+				tr.Ev(kit.E{"ev": "Panic", "what": "Send", "msg": p})
+			}
+			if err != nil {
+				failed++
+			}
+			sent = append(sent, data)
+			fio.mu.Lock()
+			out := fio.out
+			fio.failAt = 0
+			fio.mu.Unlock()
+			for i := range out {
+				frames++
+				fm := out[i]
+				fm.Data = append([]byte(nil), fm.Data...)
+				if m := d.Feed(&fm); m != nil {
+					emitted++
+					ok := false
+					for _, x := range sent {
+						ok = ok || (bytes.Equal(x, m.Data) && m.Addr == addr)
+					}
+					if !ok {
+						bad++
+					}
+				}
+			}
+		}
+		return kit.E{"ev": "SendSeq", "conn": id, "msgs": nm, "failed": failed, "frames": frames, "emitted": emitted, "bad": bad, "retried": false}
+	}
+	e := attempt()
+	if e["bad"].(int) > 0 || (e["failed"].(int) == 0 && e["emitted"].(int) != e["msgs"].(int)) {
+		// packet IDs are drawn at random: two consecutive messages share one with probability 2^-16; the same sequence once more
+		// tells a sender that reuses IDs (it fails again) from that coincidence
+		e = attempt()
+		e["retried"] = true
+	}
+	tr.Ev(e)
 }
 
 func TestVerif_C05e(t *testing.T) {
